@@ -146,6 +146,15 @@ class Model:
         return None
 
     def binop(self, ex, op, a, b, st):
+        if isinstance(op, ast.BitOr) and isinstance(a.ty, SetT):
+            items = None
+            if b.ty is PY and isinstance(b.py, tuple) and b.py and b.py[0] == "symset":
+                items = b.py[1]
+            if items is not None:
+                cur = a
+                for it in items:
+                    cur = self.set_add(ex, cur, ex.coerce(it, a.ty.elem), st)
+                return cur
         return None
 
     def to_str(self, ex, v, st):
@@ -338,7 +347,7 @@ class Model:
 
     def bind_params(self, ex, c, args):
         env = {}
-        for name, tystr in c.params.items():
+        for name, tystr in list(c.params.items()) + list(getattr(c, "ghost", {}).items()):
             if name not in args:
                 raise Unsupported(f"contract {c.qualname}: missing argument {name}")
             a = args[name]
@@ -373,6 +382,13 @@ class Model:
             if k not in c.params:
                 raise Unsupported(f"{c.qualname}: unexpected keyword {k}")
             bound[k] = v
+        for g in getattr(c, "ghost", {}):
+            if g in st.env:
+                bound[g] = st.env[g]                      # ghost argument: the caller's ghost variable of the same name
+            else:
+                gty = parse_type(c.ghost[g])
+                bound[g] = V(fresh("ghost." + g, gty.sort()), gty)
+        names = [n for n in names if n not in getattr(c, "ghost", {})]
         defaults = getattr(c, "defaults", {})
         for n in names:
             if n not in bound:
@@ -386,6 +402,8 @@ class Model:
             for f in extra:
                 st.assume(f)
             ex.oblige(f"{ex.fname}:call {c.qualname}:requires[{i}]@L{getattr(node, 'lineno', '?')}", st, t, node)
+        # `definitional` clauses (defining equations of spec functions at the callee's self) are assumed on entry of the callee's own
+        # verification; a caller neither proves nor needs them
         for exc, cond in c.raises.items():
             t, extra, _ = self.eval_spec(ex, cond, env, st)
             for f in extra:
@@ -411,9 +429,25 @@ class Model:
         return result
 
     def apply_effects(self, ex, c, env, result, st, node):
-        """Hook: havoc what the callee may modify (frame)."""
+        """Frame: a parameter listed in `modifies` must be passed as a plain local name; that name is rebound to a fresh value
+        which the ensures relate to `old_<param>`."""
         for name in c.modifies:
-            raise Unsupported(f"contract {c.qualname} modifies {name}: no effect model")
+            arg = None
+            if node is not None:
+                for k in node.keywords:
+                    if k.arg == name:
+                        arg = k.value
+                pos = [p for p in c.params if p != "self"]
+                if arg is None and name in pos and pos.index(name) < len(node.args):
+                    arg = node.args[pos.index(name)]
+            if not isinstance(arg, ast.Name) or arg.id not in st.env:
+                raise Unsupported(f"contract {c.qualname} modifies {name}: argument is not a local name")
+            old = st.env[arg.id]
+            new = V(fresh("mod." + name, old.ty.sort()), old.ty)
+            st.env[arg.id] = new
+            self.type_facts(ex, new, st)
+            env["old_" + name] = env[name]
+            env[name] = new
 
     # ------------------------------------------------------------------ calls
     def call_node(self, ex, e, st):
@@ -456,6 +490,8 @@ class Model:
             return self.construct(ex, f[1], args, kwargs, st, node)
         if isinstance(f, tuple) and f and f[0] == "excclass":
             return pyv(("exc", f[1]))
+        if isinstance(f, tuple) and f and f[0] == "module" and f[1] == "dataclasses.replace":
+            return self.dataclass_replace(ex, args[0], kwargs, st)
         if isinstance(f, tuple) and f and f[0] == "pytype":
             return BUILTINS[f[1]](self, ex, args, kwargs, st, node)
         if isinstance(f, tuple) and f and f[0] == "lambda":
@@ -486,6 +522,28 @@ class Model:
             st.assume(f)
         st.facts |= s2.facts
         return r
+
+    def dataclass_replace(self, ex, obj, kwargs, st):
+        """dataclasses.replace(obj, **changes): a fresh object of the same class, declared fields copied except the changed ones."""
+        ty = obj.ty.inner if isinstance(obj.ty, OptT) else obj.ty
+        d = self.classes.get(ty.name) if isinstance(ty, ObjT) else None
+        if d is None or "_fields" not in d:
+            raise Unsupported(f"dataclasses.replace on {obj!r} (no _fields in class table)")
+        o = V(fresh("replaced." + ty.name, Ref), ty)
+        st.assume(o.term != NONE)
+        for f_ in d["_fields"]:
+            found = self.find_attr(ty.name, f_)
+            decl, tystr = found
+            fty = parse_type(tystr)
+            acc = fn(f"{decl}.{f_}", Ref, fty.sort())
+            if f_ in kwargs:
+                st.assume(acc(o.term) == ex.coerce(kwargs[f_], fty).term)
+            else:
+                st.assume(acc(o.term) == acc(obj.term))
+        for k in kwargs:
+            if k not in d["_fields"]:
+                raise Unsupported(f"dataclasses.replace: {k} is not a declared field of {ty.name}")
+        return o
 
     def construct(self, ex, cname, args, kwargs, st, node):
         """Constructor call of a frozen dataclass in the class table: fresh object with accessor equations."""
@@ -709,11 +767,59 @@ class Model:
                     cond = z3.And([ex.ev_truth(c, s2) for c in g.ifs] or [z3.BoolVal(True)])
                     items.append((cond, ex.ev(e.elt, s2)))
                 return pyv(("filtered", tuple(items)))
+        if kind == "dict" and len(e.generators) == 1:
+            r = self.dict_comprehension(ex, e, st)
+            if r is not None:
+                return r
         for g in e.generators:
             ex.ev(g.iter, st)
         o = V(fresh(kind + "comp", Ref), ObjT("Opaque"))
         st.assume(o.term != NONE)
         return o
+
+    def dict_comprehension(self, ex, e, st):
+        """{k: f(k, v) for k, v in m.items() if c(k, v)} over a symbolic map m: the result map is characterised pointwise."""
+        g = e.generators[0]
+        it = ex.ev(g.iter, st)
+        if not (it.ty is PY and isinstance(it.py, tuple) and it.py and it.py[0] == "items"):
+            return None
+        m = it.py[1]
+        mty = m.ty.inner if isinstance(m.ty, OptT) else m.ty
+        if not (isinstance(g.target, ast.Tuple) and len(g.target.elts) == 2 and all(isinstance(x, ast.Name) for x in g.target.elts)):
+            return None
+        kname, vname = g.target.elts[0].id, g.target.elts[1].id
+        if not (isinstance(e.key, ast.Name) and e.key.id == kname):
+            return None
+        kk = fresh("dk", mty.key.sort())
+        s2 = st.fork()
+        s2.env[kname] = V(kk, mty.key)
+        s2.env[vname] = V(map_get(m.term, kk, mty.key, mty.val), mty.val)
+        n0 = len(s2.pc)
+        if is_ref(mty.val) and not isinstance(mty.val, OptT):
+            pass
+        present = map_has(m.term, kk, mty.key)
+        self.map_facts(ex, m, s2)
+        ex.guards.append(present)
+        cond = z3.And([ex.ev_truth(c, s2) for c in g.ifs] or [z3.BoolVal(True)])
+        ex.guards.append(cond)
+        try:
+            val = ex.ev(e.value, s2)
+        finally:
+            ex.guards.pop()
+            ex.guards.pop()
+        if val.ty is TUPLE or val.ty is PY:
+            return None
+        rty = MapT(mty.key, val.ty)
+        n = V(fresh("dictcomp", Ref), rty)
+        st.assume(n.term != NONE)
+        for f in s2.pc[n0:]:
+            st.assume(z3.ForAll([kk], z3.Implies(present, f)))
+        st.facts |= s2.facts
+        st.assume(z3.ForAll([kk], map_has(n.term, kk, rty.key) == z3.And(present, cond)))
+        st.assume(z3.ForAll([kk], z3.Implies(z3.And(present, cond), map_get(n.term, kk, rty.key, rty.val) == val.term)))
+        st.assume((seq_len(map_keys(n.term)) > 0) == z3.Exists([kk], z3.And(present, cond)))
+        st.assume(seq_len(map_keys(n.term)) >= 0)
+        return n
 
     # ------------------------------------------------------------------ loops
     def loop_key(self, ex, kind):
@@ -1137,6 +1243,12 @@ def _b_quant(kind):
             for fct in facts:
                 st.assume(z3.ForAll([sv], fct))
             return V(z3.ForAll([sv], t) if kind == "forall" else z3.Exists([sv], t), BOOL)
+        elif len(args) == 2 and args[1].ty is PY and isinstance(args[1].py, tuple) and args[1].py and args[1].py[0] == "class":
+            ov = fresh("qo", Ref)                                      # forall(lambda x: ..., ClassName): all references
+            t, facts = _lambda_body(model, ex, lam, st, [V(ov, ObjT(args[1].py[1]))])
+            for fct in facts:
+                st.assume(z3.ForAll([ov], fct))
+            return V(z3.ForAll([ov], t) if kind == "forall" else z3.Exists([ov], t), BOOL)
         elif len(args) == 2 and isinstance(args[1].ty, SeqT):          # forall(lambda x: ..., seq)
             seq = args[1]
             rng = z3.And(0 <= j, j < seq_len(seq.term))
